@@ -175,6 +175,11 @@ def main(tier, seed):
     n = 60 if tier == "quick" else 800
     for i in range(n):
         progs.append(("gen/%d/%d" % (seed, i), gen.generate(seed, 17000 + i, max_choices=7)))
+    # bodies shared between clauses (same atoms, same or different signs, probabilistic and deterministic heads)
+    from props.c31 import twin_program
+    import random as _random
+    for i in range(n // 3):
+        progs.append(("twin/%d/%d" % (seed, i), twin_program(_random.Random("c25t/%s/%s" % (seed, i)))))
     run.bounds = {"skeletons": len(progs)}
     for st in pmap(work, progs, item_timeout=120 if tier == "quick" else 600):
         run.merge(st)
